@@ -178,22 +178,20 @@ def step (_ : Unit) (fs : List String) : Unit × String :=
       let c ← cfg? mode
       let pts ← points? (← nat? n) rest
       pure (outStr (lpHandle c e (← name? hdr) (← name? qdb) (← name? qb) (← name? qm) pts))
-    | "one" :: ep :: mode :: hdr :: qdb :: mp :: fok :: nrows :: rest => do
+    | "one" :: ep :: mode :: hdr :: qdb :: mp :: fok :: _nrows :: rest => do
       let e ← oneEp? ep
       let c ← cfg? mode
       let (cols, r) ← counted? rest
       if r ≠ [] then none else
-      pure (outStr (oneHandle c e (← name? hdr) (← name? qdb) (← name? mp) (fok == "1") cols (← nat? nrows)))
+      pure (outStr (oneHandle c e (← name? hdr) (← name? qdb) (← name? mp) (fok == "1") cols))
     | "rep" :: pre :: ilen :: rest => do
       let p ← unhex pre
       let n ← nat? ilen
       let inner ← inner? rest
-      match parseEnvelope (p ++ List.replicate n 0) with
-      | .panic => pure "res=panic"
-      | .ok db rem =>
-        -- the inner payload is what the harness encoded only when the cut falls exactly behind the prefix
-        let i := if rem.length = n then inner else .garbage
-        pure s!"res=ok db={hx db} keys=[{keysStr (applyInner db i)}]"
+      let (db, rem) := parseEnvelope (p ++ List.replicate n 0)
+      -- the inner payload is what the harness encoded only when the cut falls exactly behind the prefix
+      let i := if rem.length = n then inner else .garbage
+      pure s!"res=ok db={hx db} keys=[{keysStr (applyInner db i)}]"
     | _ => none
   ((), out.getD "bad-op")
 
